@@ -343,6 +343,9 @@ func cmdRun(byID map[string]Engine, args []string) int {
 			cmd := exec.Command(bin, "worker", "-prop", e.ID(), "-tier", *tier, "-seed", fmt.Sprint(*seed),
 				"-w", fmt.Sprint(w), "-W", fmt.Sprint(W), "-runs", fmt.Sprint(runs), "-deadline", fmt.Sprint(deadline), "-tmp", *tmp)
 			cmd.Stderr = os.Stderr
+			// race-detector reports of a -race build go to files the engine can look at
+			raceLog := filepath.Join(*tmp, fmt.Sprintf("race-w%d", w))
+			cmd.Env = append(os.Environ(), "GORACE=log_path="+raceLog+" halt_on_error=0 exitcode=0", "AGESIM_RACE_LOG="+raceLog)
 			op, err := cmd.StdoutPipe()
 			if err != nil {
 				mu.Lock()
